@@ -307,6 +307,11 @@ func (g *Gen) genC14(n int) error {
 			g.st("case")
 			continue
 		}
+		if i%40 == 3 {
+			g.identicalVectorsCase()
+			g.st("case")
+			continue
+		}
 		cfg := g.vecCfg()
 		if g.tier == "thorough" && i%100 == 99 || g.tier == "quick" && i%40 == 39 {
 			// clustered index class: at least 1000 vectors
@@ -1815,4 +1820,33 @@ func (g *Gen) manyFieldsVecMergeCase() {
 	}
 	g.emit("vcounters")
 	g.st("vec.manyfields")
+}
+
+// identicalVectorsCase: 900 documents that all carry one and the same vector (an exact index): every
+// one of them is indexed and is returned when k allows.  (Identical vectors are told apart by a random
+// 31-bit tag in their ids: two of them colliding loses a document's vector - on the unchanged code
+// with probability 2^-31 per pair, 2*10^-4 for this case, see DESIGN section 7.)
+func (g *Gen) identicalVectorsCase() {
+	b := &BatchSpec{Name: g.fresh("b")}
+	nd := 900
+	for d := 0; d < nd; d++ {
+		id := []byte(fmt.Sprintf("%s-%d", b.Name, d))
+		doc := DocSpec{ID: id, Plain: true}
+		doc.Fields = append(doc.Fields, FieldSpec{Kind: "fld", Name: "_id", Typ: 't', Stored: true, Len: 1, Val: id, Toks: []TokSpec{{Term: id, Freq: 1}}})
+		doc.Fields = append(doc.Fields, FieldSpec{Kind: "vec", Name: "vecA", Dim: 2, Metric: "l2_norm", Opt: g.vecOpt["vecA"], Vec: []int{1, -2}})
+		b.Docs = append(b.Docs, doc)
+	}
+	g.emitBatch(b)
+	s := g.fresh("s")
+	g.emit("build %s %s", s, b.Name)
+	g.newBuilt(s, b)
+	g.emit("vstats %s", s)
+	h := g.fresh("h")
+	g.emit("vopen %s %s vecA filt=1 ex=nil", h, s)
+	g.emit("vsearch %s q=1,-2 k=%d", h, nd+5)
+	g.emit("vsearch %s q=%s k=%d", h, g.randQuery(2), nd)
+	g.emit("vclose %s", h)
+	g.emit("close %s", s)
+	g.emit("vcounters")
+	g.st("vec.identical")
 }
